@@ -109,9 +109,10 @@ def nearest_hook(k: int, n: int = 4):
             rev = bool(ev.eval(kw["reverse"]))
         if isinstance(call.func, ast.Attribute) and call.func.attr == "sort" and "key" in kw and is_distance(kw["key"]):
             lst = ev.eval(call.func.value)
-            if not (isinstance(lst, list) and sorted(lst) == list(range(n))):
-                raise NotEvaluable("sort by distance over something else than range(n)")
-            lst[:] = list(reversed(asc)) if rev else list(asc)
+            if not (isinstance(lst, list) and all(isinstance(x, int) and not isinstance(x, bool) and 0 <= x < n for x in lst) and len(set(lst)) == len(lst)):
+                raise NotEvaluable("sort by distance over something else than candidate indexes")
+            order = list(reversed(asc)) if rev else list(asc)
+            lst[:] = [x for x in order if x in lst]  # the candidates that are offered, nearest first
             return None
         if name == "sorted" and "key" in kw and is_distance(kw["key"]):
             return list(reversed(asc)) if rev else list(asc)
@@ -681,4 +682,15 @@ def labels_private(repo: Repo) -> RuleRun:
 labels_private.rule_id = "C10.LABELS-PRIVATE"
 
 
-RULES = [face_permutations, edge_map_rule, side_addressing, select_polarity, arguments_untouched, written_sides, no_class_state, affine_kinds, no_shared_parts, corner_patches, beam_list, labels_private]
+def empty_patch(repo: Repo) -> RuleRun:
+    """'assigning a patch ... affects exactly the block side ...': a patch that lost its sides (its operation was deleted) does not take the patches declared after it out of the file. Same rule as C06.EMPTY-PATCH."""
+    from ..report import rebrand
+    from . import c06
+
+    return rebrand(c06.empty_patch(repo), PROP, "C10.EMPTY-PATCH")
+
+
+empty_patch.rule_id = "C10.EMPTY-PATCH"
+
+
+RULES = [face_permutations, edge_map_rule, side_addressing, select_polarity, arguments_untouched, written_sides, no_class_state, affine_kinds, no_shared_parts, corner_patches, beam_list, labels_private, empty_patch]
